@@ -573,6 +573,13 @@ func (x *Exec) modified(nodes []ast.Node, st *State) []types.Object {
 						if fn, ok := selx.Obj().(*types.Func); ok {
 							if sig := fn.Type().(*types.Signature); sig.Recv() != nil {
 								if _, isPtr := sig.Recv().Type().(*types.Pointer); isPtr {
+									// a method called on a reference variable changes the heap (the
+									// callee's modifies clause), never the variable itself
+									if o := rootObj(sel.X, x.info); o != nil {
+										if _, isRef := st.env[o].(VRef); isRef {
+											return true
+										}
+									}
 									mark(sel.X)
 								}
 							}
